@@ -425,7 +425,23 @@ func runC08(c *Ctx) {
 			sinks = append(sinks, r)
 		}
 		g := GBool("bytes.Equal(localHash, remoteTopHash)", CalleeIs(p.PkgFunc("bytes:Equal")), 0, true)
-		c.RequireGate("C08.4-insync-only-if-equal", fn, g, sinks, "return needsSync=false, err=nil")
+		// `return !sameHash, nil`: the answer is computed; needsSync=false must imply the comparison held
+		verdicts := 0
+		var rest []ssa.Instruction
+		for _, s := range sinks {
+			ret := s.(*ssa.Return)
+			if _, isConst := ret.Results[0].(*ssa.Const); !isConst && g.ImpliedBy(ret.Results[0], false, fn) {
+				verdicts++
+				continue
+			}
+			rest = append(rest, s)
+		}
+		if verdicts > 0 && len(rest) == 0 {
+			c.Fn(FuncName(fn))
+			c.Hold("C08.4-insync-only-if-equal", FuncName(fn)+"|"+g.Name+"|return needsSync=false, err=nil", p.Pos(fn.Pos()), "the returned needsSync is computed from the comparison: it is false only when "+g.Name+" held")
+		} else {
+			c.RequireGate("C08.4-insync-only-if-equal", fn, g, sinks, "return needsSync=false, err=nil")
+		}
 		// the operands: local = decoded diff.Hash(), remote = resp.Results[0].Hash
 		for _, in := range CallSinks(fn, CalleeIs(p.PkgFunc("bytes:Equal")), false) {
 			args := in.(*ssa.Call).Call.Args
